@@ -74,10 +74,18 @@ AHB_CASES = ["Muss [1P]", "Muss [1P] U [UB1] Soll [2P]", "X [4P]", "Muss [UB3] K
 MISSING_CASES = ["[99P]", "[1P] U [99P]", "[98P]", "Muss [1P] Soll [99P]", "[99P] O [UB1]"]
 
 
-def run_resolver(model, text, packages, resolve_packages, replace_time, order):
+SHIPPED_RESOLVER = "ahbicht.expressions.package_expansion.DictBasedPackageResolver"
+
+
+def run_resolver(model, text, packages, resolve_packages, replace_time, order, shipped_for=None):
+    """shipped_for: run with the shipped DictBasedPackageResolver (built by its real __init__) registered for data of that format"""
     def run(ch):
         go = (lambda n: range(n)) if order == "fwd" else (lambda n: reversed(range(n)))
-        h = Harness(model, ch, packages=packages, gather_order=go)
+        h = Harness(model, ch, packages=packages, gather_order=go, data_format=shipped_for)
+        if shipped_for is not None:
+            from ..fdvalues import ClassVal
+
+            h.provider.fields["packages"] = h.it.construct(ClassVal(SHIPPED_RESOLVER), [dict(packages)], {}, None, None)
         try:
             res = h.call(RESOLVER, text, resolve_packages=resolve_packages, replace_time_conditions=replace_time)
         except PyRaise as err:
@@ -159,4 +167,23 @@ def check(ctx: Ctx) -> None:
     from .c12 import shipped_rule
 
     shipped_rule(ctx, "C10.shipped", ("pkg",))
+    # the shipped dictionary based resolver end to end, for data of several formats
+    import ast as _ast
+
+    from ..fdai import Frame, Interp
+
+    def shipped_e2e():
+        pe_mod = model.module("ahbicht.expressions.package_expansion")
+        for fmt in ("UTILMD", "MSCONS"):
+            # the member of the format enum as the resolver module itself spells it
+            fmt_val = Interp(model).eval(_ast.parse(f"EdifactFormat.{fmt}", mode="eval").body, Frame(None, pe_mod, None, set()))
+            for text in ("[5] O [1P]", "Muss [2P] U [UB1]", "[4P]"):
+                kind, want = expected(text, PACKAGES, True, True)
+                got = observed(kind, run_resolver(model, text, PACKAGES, True, True, "fwd", shipped_for=fmt_val))
+                ctx.count()
+                ctx.ob("C10.shipped", f"e2e:{fmt}:{text}", got == want,
+                       f"resolving {text!r} with the shipped DictBasedPackageResolver for {fmt} data: got {got}, textual bracketed substitution gives {want}",
+                       file="src/ahbicht/expressions/package_expansion.py", function="DictBasedPackageResolver.get_condition_expression")
+
+    ctx.soft(shipped_e2e)
     ctx.assume("L3/L4 (Transformer visits every node, scan_values yields every leaf); brackets leave no node (C01.brackets)")
